@@ -1020,6 +1020,14 @@ def family_box(tier, seed):
             add(fam_, *a)
     for a in [(8, 3, 4, 3, 2, 5), (6, 4, 3, 2, 4, 1), (10, 3, 5, 4, 2, 2), (4, 2, 2, 2, 2, 3)]:
         add('pitfall', *a)
+    # more sets / colours than vertices, in both encodings
+    for g_ in (['path', 3], ['complete', 2], ['empty', 1], ['grid', 2, 2], ['star', 5]):
+        n_ = g_nE(g_)[0]
+        for d_ in (n_ + 1, n_ + 3, 2 * n_ + 1):
+            for alt_ in (False, True):
+                add('domset', g_, d_, alt_)
+        add('kcolor', g_, n_ + 2, False)
+        add('kcolor', g_, n_ + 2, True)
     for g in G_BOX:
         add('matching', g)
         add('tiling', g)
